@@ -4,7 +4,8 @@ use shared::triple::Triple;
 use rayon::prelude::*;
 use crate::reasoning::materialisation::replace_variables_with_bound_values;
 use crate::reasoning::Reasoner;
-use crate::reasoning::rules::matches_rule_pattern;
+use crate::reasoning::rules::{evaluate_filters, join_rule, matches_rule_pattern};
+use shared::rule_index::WILDCARD;
 
 impl Reasoner {
 
@@ -31,11 +32,17 @@ impl Reasoner {
                     || HashSet::new(),
                     |mut local_set, triple1| {
                         // Use only the predicate for candidate rule lookup
-                        let candidate_rule_ids = self.rule_index.query_candidate_rules(
+                        let mut candidate_rule_ids = self.rule_index.query_candidate_rules(
                             None,
                             Some(triple1.predicate),
                             None,
                         );
+                        // Premises with a variable predicate are indexed under WILDCARD
+                        candidate_rule_ids.extend(self.rule_index.query_candidate_rules(
+                            None,
+                            Some(WILDCARD),
+                            None,
+                        ));
                         for &rule_id in candidate_rule_ids.iter() {
                             let rule = &self.rules[rule_id];
                             match rule.premise.len() {
@@ -46,7 +53,7 @@ impl Reasoner {
                                         &rule.premise[0],
                                         triple1,
                                         &mut variable_bindings,
-                                    ) {
+                                    ) && evaluate_filters(&variable_bindings, &rule.filters, &dict) {
                                         // Process each conclusion
                                         for conclusion in &rule.conclusion {
                                             let inferred = replace_variables_with_bound_values(
@@ -79,7 +86,7 @@ impl Reasoner {
                                                     &rule.premise[1],
                                                     triple2,
                                                     &mut variable_bindings_2,
-                                                ) {
+                                                ) && evaluate_filters(&variable_bindings_2, &rule.filters, &dict) {
                                                     // Process each conclusion
                                                     rule.conclusion
                                                         .iter()
@@ -120,7 +127,7 @@ impl Reasoner {
                                                     &rule.premise[0],
                                                     triple2,
                                                     &mut variable_bindings_2b,
-                                                ) {
+                                                ) && evaluate_filters(&variable_bindings_2b, &rule.filters, &dict) {
                                                     // Process each conclusion
                                                     rule.conclusion
                                                         .iter()
@@ -146,7 +153,27 @@ impl Reasoner {
                                     }
                                 }
 
-                                _ => {}
+                                _ => {
+                                    // Three or more premises: generic join, triple1 feeding
+                                    // each premise position in turn
+                                    let delta_one: HashSet<Triple> =
+                                        std::iter::once(triple1.clone()).collect();
+                                    for binding in join_rule(rule, &all_facts_arc, &delta_one) {
+                                        if !evaluate_filters(&binding, &rule.filters, &dict) {
+                                            continue;
+                                        }
+                                        for conclusion in &rule.conclusion {
+                                            let inferred = replace_variables_with_bound_values(
+                                                conclusion,
+                                                &binding,
+                                                &mut dict.clone(),
+                                            );
+                                            if !all_facts_arc.contains(&inferred) {
+                                                local_set.insert(inferred);
+                                            }
+                                        }
+                                    }
+                                }
                             }
                         }
                         local_set
